@@ -227,3 +227,104 @@ func verifAssertDelete(r env.Req, uid string, what string) {
 	rt.Assert(r.Propagation == "Background", what+"/propagation-not-background")
 	rt.Assert(r.Accepted, what+"/rejected-by-server")
 }
+
+// ---- thorough: two children of two kinds in one pass ----
+
+type verifC06Kid struct {
+	named            bool
+	name, res        string
+	exists, wanted   bool
+	deleting         bool
+	uid              string
+	obsVal, desVal   string
+}
+
+// verifC06Expected returns the verb the strategy allows for this child ("" = no request).
+func verifC06Expected(k *verifC06Kid, method string) (verb string, wantErr bool) {
+	switch {
+	case !k.exists:
+		return "create", false
+	case !k.wanted:
+		if k.deleting {
+			return "", false
+		}
+		return "delete", false
+	case k.obsVal == k.desVal, k.deleting:
+		return "", false
+	case method == "OnDelete" || method == "":
+		return "", false
+	case method == "Recreate" || method == "RollingRecreate":
+		return "delete", false
+	case method == "InPlace" || method == "RollingInPlace":
+		return "update", false
+	}
+	return "", true
+}
+
+func VerifC06_TwoChildren() {
+	w := env.NewWorld()
+	parent := env.Thing("ns", "p", "puid")
+	method := rt.OneOf(rt.String("method"), "", "OnDelete", "Recreate", "RollingRecreate", "InPlace", "RollingInPlace")
+	kids := []*verifC06Kid{{named: false, name: "a", res: "configmaps"}, {named: true, name: "b", res: "widgets"}}
+	var observedList, desiredList []*unstructured.Unstructured
+	for _, k := range kids {
+		k.exists = rt.Bool("exists-" + k.name)
+		k.wanted = rt.Bool("wanted-" + k.name)
+		rt.Assume(k.exists || k.wanted)
+		k.uid = rt.String("uid-" + k.name)
+		rt.Assume(k.uid != "")
+		k.obsVal, k.desVal = rt.String("obsVal-"+k.name), rt.String("desVal-"+k.name)
+		if k.exists {
+			k.deleting = rt.Bool("deleting-" + k.name)
+		}
+	}
+	for _, k := range kids {
+		if k.exists {
+			obs := verifApplied(verifChild(k.named, "ns", k.name, "", k.obsVal), parent, k.uid)
+			if k.deleting {
+				env.MarkDeleting(obs)
+			}
+			w.Srv.Put(k.res, obs)
+			observedList = append(observedList, obs)
+		}
+		if k.wanted {
+			desiredList = append(desiredList, verifChild(k.named, "ns", k.name, "", k.desVal))
+		}
+	}
+	observed := commonv2.MakeUniformObjectMap(parent, observedList)
+	desired := commonv2.MakeUniformObjectMap(parent, desiredList)
+	for _, o := range observedList {
+		desired.InitGroup(o.GroupVersionKind())
+	}
+	err := ManageChildren(w.Dyn, verifStrategy{v1alpha1.ChildUpdateMethod(method)}, parent, observed, desired, &ApplyOptions{Strategy: ApplyStrategyDynamicApply})
+	anyErr := false
+	for _, k := range kids {
+		want, wantErr := verifC06Expected(k, method)
+		if wantErr {
+			anyErr = true
+		}
+		n := 0
+		for _, r := range w.Srv.Writes() {
+			if r.Resource != k.res || r.Name != k.name {
+				continue
+			}
+			n++
+			rt.Assert(want != "", "two-children/"+k.name+"/request-although-none-allowed")
+			if want != "" {
+				rt.Assert(r.Verb == want, "two-children/"+k.name+"/wrong-verb-for-strategy")
+			}
+			if r.Verb == "delete" {
+				rt.Assert(r.UIDPre != nil && string(*r.UIDPre) == k.uid, "two-children/"+k.name+"/delete-uid-precondition")
+				rt.Assert(r.Propagation == "Background", "two-children/"+k.name+"/delete-propagation")
+			}
+		}
+		if want != "" {
+			rt.Assert(n == 1, "two-children/"+k.name+"/expected-exactly-one-request")
+		}
+	}
+	for _, r := range w.Srv.Writes() {
+		rt.Assert((r.Resource == "configmaps" && r.Name == "a") || (r.Resource == "widgets" && r.Name == "b"), "two-children/write-to-unexpected-target")
+	}
+	rt.Assert((err != nil) == anyErr, "two-children/error-iff-unknown-method-applies")
+	rt.Cover("two-children")
+}
